@@ -254,3 +254,35 @@ func SwitchS(site int, tag string, cases ...string) {
 		}
 	}
 }
+
+// MapProbe makes a map lookup with a string key visible to the leak model: the runtime
+// compares the probe with stored keys by early-exit memequal (on a hash-tag match); the model
+// over-approximates that as one early-exit comparison with every stored key, in sorted order.
+func MapProbe[K comparable](site int, k K, m any) K {
+	if Tracing {
+		rk := reflect.ValueOf(k)
+		if rk.Kind() == reflect.String {
+			probe := rk.String()
+			mv := reflect.ValueOf(m)
+			if mv.Kind() == reflect.Map {
+				keys := make([]string, 0, mv.Len())
+				for _, kv := range mv.MapKeys() {
+					keys = append(keys, kv.String())
+				}
+				sortStrings(keys)
+				for _, key := range keys {
+					cmpEvent(site, "map-index", len(key), len(probe), firstMismatchS(key, probe))
+				}
+			}
+		}
+	}
+	return k
+}
+
+func sortStrings(a []string) {
+	for i := 1; i < len(a); i++ {
+		for j := i; j > 0 && a[j] < a[j-1]; j-- {
+			a[j], a[j-1] = a[j-1], a[j]
+		}
+	}
+}
